@@ -39,7 +39,7 @@ def run(chk: Check) -> None:
     _header(chk)
     _version(chk)
     n = reference_sites(chk, "R17.3")
-    chk.floor("R17.3", "reference resolution sites", n, 8)
+    chk.floor("R17.3", "reference resolution sites", n, 5)
     from_protobuf_cache(chk, "R17.3")
     lookup_bindings(chk, "R17.3")
     from .loader import deferred_stage
@@ -53,7 +53,7 @@ def run(chk: Check) -> None:
             k += 1
         if rule == "R03.1" and "class-level" in construct or rule == "R03.1" and "module-level" in construct:
             chk.ob("R17.7", construct, ok, loc, msg, facts)
-    chk.floor("R17.4", "back-pointer writes", k, 14)
+    chk.floor("R17.4", "back-pointer writes", k, 9)
     for prop, rule, construct, ok, loc, msg, facts in own.obs:
         if rule == "R03.6" or (rule in ("R03.1", "R03.4") and "_add_to_uuid_cache" in construct):
             chk.ob("R17.3", construct, ok, loc,
@@ -196,7 +196,7 @@ def _decoders_use_primitives(chk: Check) -> None:
         chk.ob("R17.4", "%s:no-direct-store" % f.qualname, not bad, f.loc(bad[0]) if bad else f.loc(),
                "decoder %s touches %s directly instead of building through the public primitives"
                % (f.qualname, unparse(bad[0]) if bad else ""), 1)
-    chk.floor("R17.4", "reader functions", n, 15)
+    chk.floor("R17.4", "reader functions", n, 10)
 
 
 def _validation(chk: Check) -> None:
@@ -214,7 +214,8 @@ def _validation(chk: Check) -> None:
     for n, i in cfg.info.items():
         if i.kind == "test" and isinstance(i.ast, ast.Compare) and len(i.ast.ops) == 1:
             t = i.ast
-            l, r = unparse(t.left), unparse(t.comparators[0])
+            # names are compared without the version suffix the normal form gives to rebound names
+            l, r = base_name(unparse(t.left)), base_name(unparse(t.comparators[0]))
             viol_when_true = (isinstance(t.ops[0], ast.Gt) and (l, r) == ("initialized_size", "size")) or \
                 (isinstance(t.ops[0], ast.Lt) and (l, r) == ("size", "initialized_size"))
             fine_when_true = (isinstance(t.ops[0], ast.LtE) and (l, r) == ("initialized_size", "size")) or \
@@ -239,9 +240,22 @@ def _validation(chk: Check) -> None:
            "field is assigned", 3)
     # defaults from len(contents)
     for pname in ("size", "initialized_size"):
-        d = cfg.nodes_where(lambda n: isinstance(n, ast.Assign) and attr_path(n.targets[0]) == (pname,)
-                            and isinstance(n.value, ast.Call) and attr_path(n.value.func) == ("len",)
-                            and attr_path(n.value.args[0]) == ("contents",))
+        def is_default(n: ast.AST) -> bool:
+            if not (isinstance(n, ast.Assign) and isinstance(n.targets[0], ast.Name)
+                    and base_name(n.targets[0].id) == pname):
+                return False
+            v = n.value
+            if isinstance(v, ast.IfExp):
+                # <p> = len(contents) if <p> is None else <p>
+                t_ = v.test
+                none_test = isinstance(t_, ast.Compare) and len(t_.ops) == 1 and isinstance(t_.ops[0], ast.Is) \
+                    and base_name(unparse(t_.left)) == pname and isinstance(t_.comparators[0], ast.Constant) \
+                    and t_.comparators[0].value is None
+                if not none_test or base_name(unparse(v.orelse)) != pname:
+                    return False
+                v = v.body
+            return isinstance(v, ast.Call) and attr_path(v.func) == ("len",) and attr_path(v.args[0]) == ("contents",)
+        d = cfg.nodes_where(is_default)
         chk.ob("R17.6", "ByteInterval.__init__:default(%s)" % pname, bool(d), init.loc(),
                "%s must default to len(contents)" % pname, 1)
     dec = bi.methods.get("_decode_protobuf")
@@ -308,7 +322,13 @@ def _validation(chk: Check) -> None:
                 chk.ob("R17.6", "%s.%s:enum-validated" % (m, fname), _through_enum(chk, pf, schema, r, fld.type),
                        r.loc, "%s.%s is not converted through its Enum: unknown numbers are not rejected"
                        % (m, fname), 2)
-    chk.floor("R17.6", "enum-typed field reads", n, 6)
+    chk.floor("R17.6", "enum-typed field reads", n, 4)
+
+
+def base_name(text: str) -> str:
+    """``size_v1`` -> ``size``: the normal form renames a name that is bound again"""
+    import re as _re
+    return _re.sub(r"\b(\w+?)_v\d+\b", r"\1", text)
 
 
 def _no_swallow(chk: Check) -> None:
@@ -335,10 +355,24 @@ def _no_swallow(chk: Check) -> None:
                         reraises = False
                 d = dotted(h.type) if h.type is not None else None
                 # the one tolerated fall-back: unknown symbolic-expression attribute numbers
-                tolerated = (d is not None and d[-1] == "ValueError" and len(t.body) == 1 and
-                             "Attribute(" in unparse(t.body[0]) and len(h.body) == 1 and
-                             ".add(" in unparse(h.body[0]) and
-                             f.qualname.startswith("ByteInterval._decode_symbolic_expressions"))
+                # (an int that is not a member of an Enum class of the package is kept as the int):
+                # the try body only converts to an Enum class, the handler only keeps the raw value
+                def _enum_call(c_: ast.Call) -> bool:
+                    dd = dotted(c_.func)
+                    k_ = chk.repo.resolve_name(f.module, ".".join(dd), f.cls) if dd else None
+                    return k_ is not None and k_.is_subclass_of("enum.Enum")
+
+                def _only(stmts, allow_enum: bool) -> bool:
+                    for c_ in [x for s_ in stmts for x in ast.walk(s_) if isinstance(x, ast.Call)]:
+                        if isinstance(c_.func, ast.Attribute) and c_.func.attr == "add":
+                            continue
+                        if allow_enum and _enum_call(c_):
+                            continue
+                        return False
+                    return all(isinstance(s_, (ast.Assign, ast.AnnAssign, ast.Expr)) for s_ in stmts)
+                tolerated = (d is not None and d[-1] == "ValueError" and _only(t.body, True)
+                             and any(_enum_call(x) for s_ in t.body for x in ast.walk(s_) if isinstance(x, ast.Call))
+                             and _only(h.body, False) and not t.orelse and not t.finalbody)
                 chk.ob("R17.7", "%s:handler(%s)" % (f.qualname, d[-1] if d else "bare"),
                        reraises or tolerated, f.loc(h),
                        "decoder %s catches %s and carries on: a structural fault in the file would "
